@@ -391,6 +391,25 @@ func runC01(r *core.Run) {
 		}
 	}
 	cases = append(cases, cdc...)
+	// how the bytes are handed to the builder is not part of the content: every
+	// seventh small case again from each kind of source (positioned / section
+	// reader, buffer, opaque, data together with io.EOF, one byte per Read,
+	// (0, nil) first, positioned *os.File)
+	base := len(cases)
+	for i := 0; i < base; i++ {
+		c := cases[i]
+		if c.Writer != "ours" || c.L > 300*1024 || i%7 != 0 {
+			continue
+		}
+		for j, src := range fileSources {
+			if src == "file" && (i+j)%5 != 0 {
+				continue
+			}
+			c2 := c
+			c2.Source = src
+			cases = append(cases, c2)
+		}
+	}
 
 	groups := groupByWidth(cases)
 	var widths []int
